@@ -188,10 +188,11 @@ def resolve_fault(trace: list[list[Any]], spec: dict[str, Any]) -> dict[str, Any
 	if want == 'write':
 		n = trace[at][2]
 		kmode = spec.get('kmode', 'half')
-		k = {'0': 0, '1': 1, 'half': n // 2, 'last': n - 1}.get(kmode)
+		k = {'0': 0, '1': 1, 'half': n // 2, 'last': n - 1, 'full': n}.get(kmode)
 		if k is None:
 			k = int(spec.get('kfrac', 0.5) * n)
-		out['k'] = max(0, min(k, n - 1))
+		# 'full' = the whole write reached the file and the process died right after it (before any truncate / close / next file)
+		out['k'] = n if kmode == 'full' else max(0, min(k, n - 1))
 		out['n'] = n
 	if kind == 'eacces@open':
 		out['count'] = int(spec.get('count', 1))
